@@ -99,6 +99,9 @@ func (f *objFile) SourceLine(addr uint64) ([]plugin.Frame, error) {
 		return nil, nil
 	case "two":
 		return []plugin.Frame{{Func: fmt.Sprintf("inl_%x", addr), File: "i.c", Line: 3}, {Func: fmt.Sprintf("sym_%x", addr), File: "s.c", Line: 4, StartLine: 1}}, nil
+	case "hole":
+		// an inline stack whose caller is unknown: a frame with no function, file or line
+		return []plugin.Frame{{Func: fmt.Sprintf("inl_%x", addr), File: "i.c", Line: 9}, {}}, nil
 	}
 	return []plugin.Frame{{Func: fmt.Sprintf("sym_%x", addr), File: "s.c", Line: 4, Column: 2}}, nil
 }
@@ -147,7 +150,7 @@ func (t *transport) RoundTrip(req *http.Request) (*http.Response, error) {
 // same rule as UsesRemote in Symbolize.tla
 func usesRemote(mode string) bool {
 	switch mode {
-	case "local", "fastlocal", "local:force", "local:demangle=templates", "local:bogus", "none":
+	case "local", "fastlocal", "local:force", "local:demangle=templates", "local:demangle=default", "local:bogus", "none":
 		return false
 	}
 	return true
